@@ -33,7 +33,9 @@ def _check_mesh(cx, vertices, tetrahedra, potentials, half, inradius, n_boundary
         if sym(cx):
             cx.prove("volume_positive[%d]" % t, cx.gt(ad, 0.0))
         else:
-            cx.prove("volume_positive[%d]" % t, CB(1e-12 * scale ** 3 - ad), tol=0.0)
+            # strictly positive; the margin is relative to the volume of the box (not to the cube of its largest size: a 1 : 8000 box has
+            # thin but perfectly valid tetrahedra - false alarm of the thorough tier, DESIGN section 12)
+            cx.prove("volume_positive[%d]" % t, CB(1e-9 * abs(float(total_volume)) - ad), tol=0.0)
         six_vol = six_vol + ad
     if sym(cx):
         cx.prove("volumes_sum_to_box_volume", cx.eq(six_vol, 6.0 * total_volume))
